@@ -227,7 +227,7 @@ def _c03_extra(t, cfg, ctx, obj):
                     return not py
             py_all, py_any = all(leaves), any(leaves)
             case['folds'] = {
-                'reduce': num(lambda: optree.tree_reduce(operator.add, obj, is_leaf=pred, **kw)), 'py_reduce': functools.reduce(operator.add, leaves).n,
+                'reduce': num(lambda: optree.tree_reduce(operator.add, obj, is_leaf=pred, **kw)), 'py_reduce': num(lambda: functools.reduce(operator.add, leaves)),
                 'reduce_init': num(lambda: optree.tree_reduce(operator.add, obj, 1000, is_leaf=pred, **kw)),
                 'sum': num(lambda: optree.tree_sum(obj, is_leaf=pred, **kw)), 'py_sum': num(lambda: sum(leaves)),
                 'max': num(lambda: optree.tree_max(obj, is_leaf=pred, **kw)), 'min': num(lambda: optree.tree_min(obj, is_leaf=pred, **kw)),
